@@ -69,11 +69,11 @@ def rule_univ(ctx):
         for h in t.handlers:
             raises_conv = any(isinstance(r, ast.Raise) and r.exc is not None and "PathIOError" in src(r.exc) for s in h.body for r in walk_self(s))
             if raises_conv:
-                if covers and h.type is not None and handler_names(h) in (["Exception"], ["BaseException"]):
+                if covers and h.type is not None and hnames(p, h) in (["Exception"], ["BaseException"]):
                     ok = True
                 break
             if h.type is not None and len(h.body) == 1 and isinstance(h.body[0], ast.Raise) and h.body[0].exc is None:
-                passthrough += handler_names(h)
+                passthrough += hnames(p, h)
             else:
                 passthrough.append("?" + src(h.type or ""))
     ctx.ob("C13.UNIV", wr, f"the converter turns every Exception into PathIOError (pass-through: {passthrough})", ok,
